@@ -298,7 +298,7 @@ def run(ctx):
         except Exception:
             rep = None
         if rc != 0 or rep is None:
-            disagreements = [l for l in dout.splitlines() if l.startswith("DISAGREE") or l.startswith("  ")][:9] or [dout[-400:]]
+            disagreements = [l for l in dout.splitlines() if l.startswith("DISAGREE") or l.startswith("  line") or l.startswith("         harness") or l.startswith("  after")][:9] or [dout[-400:]]
         try:
             hist = json.load(open(cases + ".hist"))
         except Exception:
